@@ -118,11 +118,11 @@ func (i *interpreter) equals(t types.Type, x, y value) value {
 	case complex128:
 		return x == y.(complex128)
 	case string:
-		if ys, ok := y.(symstr); ok {
-			return i.strEq(x, ys)
+		if ys, ok := y.(string); ok {
+			return x == ys
 		}
-		return x == y.(string)
-	case symstr:
+		return i.strEq(x, y)
+	case symstr, numtext:
 		return i.strEq(x, y)
 	case *value:
 		return x == y.(*value)
